@@ -183,3 +183,86 @@ Proof.
 Qed.
 
 End Arms.
+
+(* ================= the classes ================= *)
+(* recognisers on the Standard's side.  Exclusion, in both: a ".." that would pop a drive-letter-shaped
+   segment (finding F-C01-9, Known_C01 class 2) - spath_ok runs the Standard's own path state. *)
+Definition in_class_rel_abs (sb : spec_url) (input : list N) : bool :=
+  negb (has_opaque_path sb) && negb (is_special_scheme (su_scheme sb))
+  && match spec_clean input with
+     | c :: t => (c =? 47) && negb (starts_with_cp 47 t) && spath_ok t [] []
+     | [] => false
+     end.
+
+Definition in_class_rel_path (sb : spec_url) (input : list N) : bool :=
+  negb (has_opaque_path sb) && negb (is_special_scheme (su_scheme sb))
+  && match spec_scheme (spec_clean input) with None => true | Some _ => false end
+  && match spec_clean input with
+     | c :: t => negb (c =? 47) && negb (c =? 63) && negb (c =? 35)
+                 && spath_ok (c :: t) (removelast (path_segments sb)) []
+     | [] => false
+     end.
+
+Section RelClasses.
+Variable dbg : bool.
+Variable hp hpo : list N -> result host.
+Variable hd : host -> list N.
+Variable ovr : option (list N -> list N).
+Variable shp : bool -> list N -> option spec_host.
+Variable shs : spec_host -> list N.
+
+Lemma oob_agree (m : pres url) u su : oob (U32_MAX_P < nlen (ser u)) m u -> related dbg shs u su ->
+  agree_rel_strict dbg shs m (BDone su).
+Proof.
+  intros HO R. cbn [agree_rel_strict]. rewrite <- (related_href dbg shs u su R).
+  destruct HO as [[E B]|E]; [left; split; assumption | right; exists u; split; assumption].
+Qed.
+
+(* ---------- "/x/y?q#f" ---------- *)
+Theorem class_rel_abs input b sb : usv_list input -> related dbg shs b sb ->
+  scheme_canon (su_scheme sb) = true -> in_class_rel_abs sb input = true ->
+  exists su, spec_basic_url_parse shp input (Some sb) = BDone su /\ spec_base_ok su = true
+    /\ agree_rel_strict dbg shs (parse_url dbg hp hpo hd ovr (Some b) input) (BDone su).
+Proof.
+  intros Hu R Hcan Hc. unfold in_class_rel_abs in Hc.
+  apply andb_true_iff in Hc. destruct Hc as [Hc Hok]. apply andb_true_iff in Hc. destruct Hc as [H1 H2].
+  assert (has_opaque_path sb = false) as Hop by (destruct (has_opaque_path sb); [discriminate | reflexivity]).
+  assert (is_special_scheme (su_scheme sb) = false) as Hnsp
+    by (destruct (is_special_scheme (su_scheme sb)); [discriminate | reflexivity]).
+  destruct (spec_clean input) as [|c t] eqn:Ecl; [discriminate Hok|].
+  apply andb_true_iff in Hok. destruct Hok as [Hok Hsp]. apply andb_true_iff in Hok. destruct Hok as [E47 H47].
+  apply N.eqb_eq in E47. subst c. apply negb_true_iff in H47.
+  exists (rel_path_result sb [] t).
+  assert (spec_basic_url_parse shp input (Some sb) = BDone (rel_path_result sb [] t)) as HS.
+  { apply spec_parse_of_runs. exact (runs_rel_abs shp (spec_clean input) sb Hop Hnsp t Ecl H47). }
+  split; [exact HS|].
+  (* the model *)
+  pose proof (rel_wf _ _ _ _ R) as W. pose proof (path_start_le_len b W) as Lps.
+  rewrite spec_clean_is_ntnl_trim in Ecl. set (l0 := input_new_trim_c0 input) in *.
+  assert (usv_list l0) as Hul0 by (apply usv_trim; exact Hu).
+  destruct (inp_next_some l0 47 t Ecl) as (r1 & En & Er1 & _).
+  pose proof (inp_next_usv l0 47 r1 Hul0 En) as Hur1.
+  assert (parse_url dbg hp hpo hd ovr (Some b) input
+          = arm_expr dbg ovr b (Bs (nfirstn (path_start b) (ser b)) []) r1) as Epu.
+  { rewrite (parse_url_relative dbg hp hpo hd ovr b input 47 t
+               (related_not_cbb dbg shs b sb R Hop) (related_not_special dbg shs b sb R Hnsp) Ecl eq_refl eq_refl).
+    fold l0. unfold parse_relative, inp_split_first. rewrite En.
+    replace (47 =? 63) with false by reflexivity. replace (47 =? 35) with false by reflexivity.
+    replace (47 =? 47) with true by reflexivity. cbn [orb st_is_special andb].
+    destruct (inp_count_matching (fun d => (d =? 47) || (d =? 92) && false) l0) as [sl rem'] eqn:Ecm.
+    assert (sl < 2) as Hsl.
+    { pose proof (inp_count_matching_fst (fun d => (d =? 47) || (d =? 92) && false) l0) as Hf.
+      rewrite Ecm in Hf. cbn [fst] in Hf. rewrite Hf, Ecl. cbn [count_leading].
+      replace (47 =? 47) with true by reflexivity. cbn [orb].
+      destruct t as [|d t']; [cbn [count_leading]; lia|]. cbn [count_leading starts_with_cp] in *.
+      rewrite H47. rewrite andb_false_r. cbn [orb]. lia. }
+    replace (2 <=? sl) with false by lia.
+    unfold arm_expr. assert (Bs (nfirstn (path_start b) (ser b)) [] = nfirstn (path_start b) (ser b) ++ [47]) as ->
+      by (unfold Bs; cbn [segs_text map concat]; apply app_nil_r).
+    reflexivity. }
+  rewrite <- Er1 in Hsp.
+  destruct (path_arm_related dbg hp hpo ovr shp shs b sb [] r1 R Hop Hnsp Hcan Hur1 eq_refl eq_refl Hsp) as (u & HO & Ru & Hb).
+  rewrite Er1 in Ru, Hb. split; [exact Hb|]. rewrite Epu. exact (oob_agree _ u _ HO Ru).
+Qed.
+
+End RelClasses.
